@@ -630,18 +630,13 @@ def any_all(ex, v, is_any):
             return Sym(K.Bool, z3.Or(rt, pe) if is_any else z3.And(rt, pe))
         if z3.is_app(v.s.t) and v.s.t.decl().kind() == z3.Z3_OP_SEQ_EMPTY:
             return not is_any
-        # the bound variable is named after the content so that equal quantified terms are identical terms
-        import hashlib
-        hk = hashlib.sha256((v.s.t.sexpr() + '|' + comb_key(ex, v.lam.bound, v.lam.value) + '|' +
-                             (comb_key(ex, v.lam.bound, Sym(K.Bool, v.lam.guard)) if v.lam.guard is not None else '')).encode()).hexdigest()[:10]
-        i = z3.Int(f'q_{hk}')
+        i = z3.Int('q_i')
         vt, g = v.lam.at(ex, v.s.t[i])
         rng = z3.And(i >= 0, i < z3.Length(v.s.t))
         if g is not None:
             rng = z3.And(rng, g)
-        if is_any:
-            return Sym(K.Bool, z3.Exists([i], z3.And(rng, vt)))
-        return Sym(K.Bool, z3.ForAll([i], z3.Implies(rng, vt)))
+        formula = z3.Exists([i], z3.And(rng, vt)) if is_any else z3.ForAll([i], z3.Implies(rng, vt))
+        return Sym(K.Bool, name_formula(ex, formula))
     s = as_seq(ex, v)
     if isinstance(s, list):
         for it in s:
@@ -812,3 +807,46 @@ def seq_fold(ex, fn, init, xs):
     if z3.is_app(s.t) and s.t.decl().kind() == z3.Z3_OP_SEQ_EMPTY:
         return Sym(acc_kind, it)
     return Sym(acc_kind, r)
+
+
+def _free_locals(t, acc, seen):
+    """symbols of enclosing comprehension variables (fresh bv!N / fa!N / fx!N) occurring in t"""
+    import re
+    if t.get_id() in seen:
+        return
+    seen.add(t.get_id())
+    if z3.is_quantifier(t):
+        _free_locals(t.body(), acc, seen)
+        return
+    if z3.is_const(t) and t.decl().kind() == z3.Z3_OP_UNINTERPRETED:
+        if re.fullmatch(r'(bv|fa|fx)!\d+', t.decl().name()):
+            if not any(z3.eq(t, x) for x in acc):
+                acc.append(t)
+        return
+    if z3.is_app(t):
+        for c in t.children():
+            _free_locals(c, acc, seen)
+
+
+def name_formula(ex, formula):
+    """Tseitin-style naming of a quantified sub-formula: an uninterpreted predicate over the enclosing
+    comprehension variables, defined once per run; equal formulas get the same predicate symbol, so that
+    clauses and invariants that state the same thing are propositionally equal."""
+    import hashlib
+    run = ex.run
+    frees = []
+    _free_locals(formula, frees, set())
+    canon = z3.substitute(formula, *[(f, z3.Const(f'FV{k}', f.sort())) for k, f in enumerate(frees)]) if frees else formula
+    key = hashlib.sha256(z3.simplify(canon).sexpr().encode()).hexdigest()[:12]
+    pred = P.ufn(f'qf_{key}', [f.sort() for f in frees], z3.BoolSort())
+    app = pred(*frees) if frees else pred()
+    defs = run.ghost.get('_qdefs')
+    if defs is None:
+        defs = run.ghost['_qdefs'] = {}
+    if key not in defs:
+        if frees:
+            fvs = [z3.Const(f'FV{k}', f.sort()) for k, f in enumerate(frees)]
+            defs[key] = z3.ForAll(fvs, pred(*fvs) == canon, patterns=[pred(*fvs)])
+        else:
+            defs[key] = (app == formula)
+    return app
